@@ -24,6 +24,11 @@ def connected(route):
     return forall([j], Implies(And(j >= 0, j + 1 < route.len()), at(route, j).end == at(route, j + 1).start))
 
 
+def travel_time(link):
+    """LinkTraversal.travel_time_seconds = int(distance / speed * 3600) (truncation = floor for non-negative values)"""
+    return v_int_trunc(link.distance_km / link.speed_kmph * 3600)
+
+
 def register(R):
     world = R.world
     LTT = world.class_ty("LinkTraversal")
@@ -58,8 +63,11 @@ def register(R):
                    Implies(Not(degenerate), And(
                        tr.is_some(), tr.val().start == a.link.start, tr.val().link_id == a.link.link_id,
                        # either the whole link is driven, or it is split at one cell: driven part ends where the rest starts
+                       # a completed link costs exactly its (whole-second) travel time
                        Implies(rem.is_none(), And(tr.val() == a.link, res.remaining_time_seconds >= 0,
-                                                  res.remaining_time_seconds <= a.available_time_seconds)),
+                                                  res.remaining_time_seconds <= a.available_time_seconds,
+                                                  res.remaining_time_seconds == a.available_time_seconds - travel_time(a.link),
+                                                  travel_time(a.link) <= a.available_time_seconds)),
                        Implies(rem.is_some(), And(tr.val().end == rem.val().start, rem.val().end == a.link.end,
                                                   rem.val().link_id == a.link.link_id, res.remaining_time_seconds == 0,
                                                   tr.val().speed_kmph == a.link.speed_kmph, rem.val().speed_kmph == a.link.speed_kmph)))))
@@ -97,6 +105,38 @@ def register(R):
                                              Implies(ex_.len() > 0, last(ex_).end == at(rem, 0).start),
                                              Implies(ex_.len() == 0, at(rem, 0).start == at(xs, 0).start)))))))
     R.loop(tk, "reduce", 0, acc_type=ACC, props=("C06",), invariant=tr_inv)
+
+    # one fold step: the time a link takes is taken from what is left of *this traversal's* budget (time never comes
+    # back), and the odometer grows by exactly the length of what was driven
+    sk_ = RT + "traverse._traverse"
+    s = R.spec(sk_, arg_types={"acc": ACC, "link": LTT}, ret=ACC)
+    s.outer_arg_types = {"route_estimate": ROUTE, "duration_seconds": IntT, "road_network": AbstractTy("RoadNetwork")}
+    s.requires("time_left", lambda a: Implies(a.acc[1].is_some(), a.acc[1].val().remaining_time_seconds >= 0))
+    s.requires("len", lambda a: a.link.distance_km >= 0)
+
+    def step_post(a, r):
+        err0, tv0 = a.acc
+        err1, tv1 = r
+        t0, t1 = tv0.val(), tv1.val()
+        gt = iface("RoadNetwork", "link_from_link_id", OptTy(world.class_ty("Link")))(a.outer.road_network, a.link.link_id)
+        upd = a.link._replace(speed_kmph=gt.val().speed_kmph)
+        n0, n1 = t0.experienced_route.len(), t1.experienced_route.len()
+        drove = n1 == n0 + 1
+        driven = last(t1.experienced_route)
+        return And(
+            Implies(Or(err0.is_some(), tv0.is_none()), And(err1 == err0, tv1 == tv0)),
+            Implies(And(err0.is_none(), tv0.is_some(), err1.is_none(), tv1.is_some()), And(
+                Or(n1 == n0, drove),
+                t1.remaining_time_seconds <= t0.remaining_time_seconds, t1.remaining_time_seconds >= 0,
+                # the whole link was driven: its travel time (at the network's current speed) is spent
+                Implies(And(drove, t1.remaining_route.len() == t0.remaining_route.len()),
+                        And(driven == upd, t1.remaining_time_seconds == t0.remaining_time_seconds - travel_time(upd))),
+                # part of the link was driven: the budget is used up
+                Implies(And(drove, t1.remaining_route.len() > t0.remaining_route.len()), t1.remaining_time_seconds == 0),
+                # odometer
+                t1.traversal_distance_km == t0.traversal_distance_km + Ite(drove, driven.distance_km, 0),
+                Implies(t0.remaining_time_seconds == 0, And(n1 == n0, t1.remaining_route.len() == t0.remaining_route.len() + 1)))))
+    s.ensures("time_is_spent_once_and_odometer_exact", step_post, ("C06",))
     # the network's view of a link: positive speed (assumed input: link tables hold positive speeds)
     R.iface("RoadNetwork", "link_from_link_id", lambda recv, args, r: Implies(r.is_some(), r.val().speed_kmph > 0))
     R.specs[tk].wf_route = well_formed_route
